@@ -93,11 +93,14 @@ Definition guard (t : ty) (s : str) (v : val) : bool := g_reads t s v && g_fixpt
 
 End Channels.
 
-(* the pinned tree: C = ActionTypeHint._check_type as modelled in Model/Ty.v, for a given YAML loader *)
-Definition chk (yl : str -> lres) : ty -> val -> ares := check_type yl.
+(* C = ActionTypeHint._check_type as modelled in Model/Ty.v, for a given set of repairs already present in the tree
+   (`as_is` = the tree as pinned; the judge uses Spec/C02Guard.v `pinned`, which the lead updates when a fix lands)
+   and a given YAML loader *)
+Definition chk (fx : fixes) (yl : str -> lres) : ty -> val -> ares := check_type_g fx yl.
 (* with Literal membership by type-and-value (the repair of C02's literal finding) *)
-Definition lit_fixed : fixes := {| fx_union := false; fx_lit := true; fx_key := false; fx_valerr := false |}.
-Definition chk_lit (yl : str -> lres) : ty -> val -> ares := check_type_g lit_fixed yl.
+Definition lit_fixed (f : fixes) : fixes :=
+  {| fx_union := fx_union f; fx_lit := true; fx_key := fx_key f; fx_valerr := fx_valerr f |}.
+Definition chk_lit (fx : fixes) (yl : str -> lres) : ty -> val -> ares := check_type_g (lit_fixed fx) yl.
 
 (* ---- JSON scalar grammar (RFC 8259 numbers), for the "JSON scalars are YAML scalars" theorem ---------- *)
 From JV Require Import Lib.Regex.
